@@ -83,10 +83,3 @@ package crypki
 //@   loop 1:
 //@     invariant len(endpoints) == len(conf.CrypkiEndpoints) && fresh(arr(endpoints)) && off(endpoints) == 0
 //@     invariant forall(i, 0 <= i && i <= rangeindex, endpoints[i] == conf.CrypkiEndpoints[i] + ":" + itoa(conf.CrypkiPort))
-//@     invariant calls(tlsutils.TLSClientConfiguration) == t0 + 1 && ret(tlsutils.TLSClientConfiguration, t0, 1) == nil &&
-//@       arg(tlsutils.TLSClientConfiguration, t0, 0) == conf.TLSClientCertFile && arg(tlsutils.TLSClientConfiguration, t0, 1) == conf.TLSClientKeyFile &&
-//@       arg(tlsutils.TLSClientConfiguration, t0, 2) == conf.TLSCACertFiles && tlsCfg == ret(tlsutils.TLSClientConfiguration, t0, 0)
-//@     invariant !tlsCfg.InsecureSkipVerify && tlsCfg.ServerName == "" && tlsCfg.VerifyPeerCertificate == nil && tlsCfg.VerifyConnection == nil &&
-//@       tlsCfg.MinVersion == 771 && tlsCfg.MaxVersion == 0 && tlsCfg.RootCAs != nil && tlsCfg.GetClientCertificate != nil
-//@     invariant calls(credentials.NewTLS) == n0 + 1 && arg(credentials.NewTLS, n0, 0) == tlsCfg && clientCreds == ret(credentials.NewTLS, n0, 0) &&
-//@       calls(grpc.WithTransportCredentials) == w0
